@@ -38,9 +38,11 @@ class XMarker(Module):
         ]
         self.underflow = Signal()
         self.comb += self.underflow.eq(pop & (level == 0))
+        self.at_head = Signal()
+        self.comb += self.at_head.eq(self.marked & ~self.done & (ahead == 0))
 
 
-def cdc_bench(name, cmd_depth=4, wdata_depth=4, rdata_depth=4, fairness=3, aw=4, dw=8, bounded_reads=True):
+def cdc_bench(name, cmd_depth=4, wdata_depth=4, rdata_depth=4, fairness=3, aw=4, dw=8, bounded_reads=True, wr_contract=False):
     from litedram.frontend.adapter import LiteDRAMNativePortCDC
     pu = LiteDRAMNativePort("both", aw, dw, clock_domain="user")
     pc = LiteDRAMNativePort("both", aw, dw, clock_domain="sys")
@@ -85,15 +87,29 @@ def cdc_bench(name, cmd_depth=4, wdata_depth=4, rdata_depth=4, fairness=3, aw=4,
     held(pu.wdata.valid, pu.wdata.ready, [pu.wdata.data, pu.wdata.we], tu, "user_wdata_held_until_accepted")
     asm("user_always_accepts_read_data", pu.rdata.ready)
     # events
+    # the watched payload bit of each stream is a symbolic constant over the WHOLE payload (every address, data and enable bit)
+    consts = {}
+
+    def tagbit(sname, vec_in, vec_out):
+        n = len(vec_in)
+        sel = Signal(max=max(n, 2), name_override="TAGBIT_" + sname)
+        consts["TAGBIT_" + sname] = sel
+        asm("tagbit_%s_in_range" % sname, sel < n)
+        return Array([vec_in[i] for i in range(n)])[sel], Array([vec_out[i] for i in range(n)])[sel]
+    ci, co = tagbit("cmd", Cat(pu.cmd.addr, pu.cmd.we), Cat(pc.cmd.addr, pc.cmd.we))
+    wi, wo = tagbit("wdata", Cat(pu.wdata.data, pu.wdata.we), Cat(pc.wdata.data, pc.wdata.we))
+    ri, ro = tagbit("rdata", pc.rdata.data, pu.rdata.data)
     ev = {
-        "cmd": (pu.cmd.valid & pu.cmd.ready & tu, pc.cmd.valid & pc.cmd.ready & ts, pu.cmd.addr[0], pc.cmd.addr[0]),
-        "wdata": (pu.wdata.valid & pu.wdata.ready & tu, pc.wdata.valid & pc.wdata.ready & ts, pu.wdata.data[0], pc.wdata.data[0]),
-        "rdata": (pc.rdata.valid & pc.rdata.ready & ts, pu.rdata.valid & pu.rdata.ready & tu, pc.rdata.data[0], pu.rdata.data[0]),
+        "cmd": (pu.cmd.valid & pu.cmd.ready & tu, pc.cmd.valid & pc.cmd.ready & ts, ci, co),
+        "wdata": (pu.wdata.valid & pu.wdata.ready & tu, pc.wdata.valid & pc.wdata.ready & ts, wi, wo),
+        "rdata": (pc.rdata.valid & pc.rdata.ready & ts, pu.rdata.valid & pu.rdata.ready & tu, ri, ro),
     }
     covers = {}
+    markers = {}
     for sname, (push, pop, tag_in, tag_out) in ev.items():
         m = XMarker(push, pop)
         top.submodules += m
+        markers[sname] = m
         mk = Signal(name_override="mark_" + sname)
         inputs["mark_" + sname] = mk
         top.comb += m.mark.eq(mk)
@@ -111,6 +127,23 @@ def cdc_bench(name, cmd_depth=4, wdata_depth=4, rdata_depth=4, fairness=3, aw=4,
         c = Signal()
         top.comb += c.eq(m.mine & (m.level >= 2))
         covers["%s_marked_item_crosses_with_others_in_flight" % sname] = c
+    if wr_contract:
+        # Towards the crossbar the crossing is itself a master and owes it the master contract: the data of a write is offered no
+        # later than the write command.  Scenario: write-only traffic, the marked command and the marked data word are the k-th of
+        # their streams and are accepted by the crossing in the same user cycle; the controller side takes write data at once.
+        mc, mw = markers["cmd"], markers["wdata"]
+        ncmd = Signal(6)
+        ndat = Signal(6)
+        top.sync.mon += [ncmd.eq(ncmd + ev["cmd"][0]), ndat.eq(ndat + ev["wdata"][0])]
+        asm("write_only_traffic", ~pu.cmd.valid | pu.cmd.we)
+        asm("marked_command_and_marked_data_are_the_same_ordinal_accepted_in_the_same_user_cycle",
+            (mc.mark_now == mw.mark_now) & (~mc.mark_now | (ncmd == ndat)))
+        asm("controller_side_takes_write_data_at_once", pc.wdata.ready)
+        bad("write_command_offered_to_controller_before_its_data_word",
+            ts & pc.cmd.valid & mc.at_head & ~(mw.done | (mw.at_head & pc.wdata.valid)))
+        cw = Signal()
+        top.comb += cw.eq(ts & pc.cmd.valid & mc.at_head & mw.done)
+        covers["marked_write_command_offered_after_its_data_was_taken"] = cw
     # the real crossbar does not wait for rdata.ready: read data offered while the CDC cannot take it is lost
     bad("read_data_offered_while_crossing_cannot_take_it_word_lost", pc.rdata.valid & ~pc.rdata.ready)
     # ... and the crossing refuses a word only when it really holds (about) rdata_depth words: occupancy + words the user popped
@@ -134,7 +167,7 @@ def cdc_bench(name, cmd_depth=4, wdata_depth=4, rdata_depth=4, fairness=3, aw=4,
     rret = pc.rdata.valid & ts
     top.sync.mon += out_r.eq(out_r + racc - rret)
     asm("controller_returns_read_data_only_for_accepted_reads", ~pc.rdata.valid | (out_r != 0))
-    b = bmc.Bench(name, top, inputs, assumes=assumes, bads=bads, covers=covers, schedule="free", fairness=fairness,
+    b = bmc.Bench(name, top, inputs, consts=consts, assumes=assumes, bads=bads, covers=covers, schedule="free", fairness=fairness,
                   clock_domains=("sys", "user", "mon"), tick_inputs={"user": tu, "sys": ts}, always_tick=("mon",),
                   info=dict(cmd_depth=cmd_depth, wdata_depth=wdata_depth, rdata_depth=rdata_depth, fairness=fairness))
     b.watch = {"tick_u": tu, "tick_s": ts, "u_cv": pu.cmd.valid, "u_cr": pu.cmd.ready, "c_cv": pc.cmd.valid, "c_cr": pc.cmd.ready,
@@ -236,6 +269,7 @@ def getport_bench(name, user_dw=16, native_dw=8, fairness=3):
 
 CONFIGS = {
     "cdc_d4_fair3": (dict(cmd_depth=4, wdata_depth=4, rdata_depth=4, fairness=3), 22, 36, "qt"),
+    "wrcontract_cdc_d4_fair3": (dict(cmd_depth=4, wdata_depth=4, rdata_depth=4, fairness=3, wr_contract=True), 20, 30, "qt"),
     "unbounded_reads_cdc_d4_fair3": (dict(cmd_depth=4, wdata_depth=4, rdata_depth=4, fairness=3, bounded_reads=False), 18, 24, "qt"),
     "unbounded_reads_cdc_default_depths_fair3": (dict(cmd_depth=4, wdata_depth=16, rdata_depth=16, fairness=3, bounded_reads=False), 20, 30, "qt"),
     "unbounded_reads_cdc_default_depths_fair6": (dict(cmd_depth=4, wdata_depth=16, rdata_depth=16, fairness=6, bounded_reads=False), 0, 60, "t"),
